@@ -257,4 +257,66 @@ theorem bare_cr_line_matches_file (c : Bytes) (hne : NL ∉ c) :
     · simp at h1; exact absurd h1 (by decide))]
   simp
 
+/-! ### the writer's rule (D97): only the last line of the output can be without its newline
+
+  `render mode os` (what is written to the file) is `renderLines mode` of the items with a bare LF line added behind every
+  unterminated line that something else follows (`terminateInner`).  For an output made without `-D` that is
+  `Render.renderText mode (os.map Out.line)` (`Render.render_eq_renderText`, `ApplyLoop.applyPatch_render`). -/
+
+/-- what is written for a list of lines: the lines one by one (`render_lf`, `render_crlf`, `render_keep` say how), every line
+    but the last first given the terminator LF if it has none -/
+theorem text_spec (m : NewlineOutput) (ls : List Line) :
+    renderText m ls = renderLines m (ls.dropLast.map forceNewline ++ ls.getLast?.toList) := by
+  rw [renderText_eq, terminate'_eq]
+
+/-- so among the lines written only the last can be without newline; contents, number and the last line are as intended -/
+theorem text_lines (ls : List Line) :
+    LinesTerminated (terminate' ls) ∧ (terminate' ls).length = ls.length ∧
+    (terminate' ls).map (·.content) = ls.map (·.content) ∧ (terminate' ls).getLast? = ls.getLast? :=
+  ⟨linesTerminated_terminate' ls, terminate'_length ls, terminate'_content ls, terminate'_getLast? ls⟩
+
+/-- a text whose only unterminated line (if any) is its last — every file as it is read — is written line by line -/
+theorem text_of_terminated (m : NewlineOutput) (ls : List Line) (h : LinesTerminated ls) :
+    renderText m ls = renderLines m ls :=
+  renderText_eq_renderLines m ls h
+
+/-- reading a file and writing it back in `preserve` mode is still the identity on all byte strings -/
+theorem text_read_write_id (bs : Bytes) : renderText .keep (splitLines bs) = bs := by
+  rw [text_of_terminated _ _ (linesTerminated_splitLines bs)]; exact read_write_id bs
+
+theorem output_read_write_id (bs : Bytes) :
+    render .keep (copyRange (splitLines bs) 0 (splitLines bs).length) = bs := by
+  rw [render_of_map_line .keep (copyRange_map_line _ _ _) ((linesTerminated_splitLines bs).drop 0 |>.take _)]
+  rw [List.drop_zero, List.take_length]; exact read_write_id bs
+
+/-- the reported case: an unterminated line followed by an added line -/
+theorem text_glue_example (m : NewlineOutput) (c d : Bytes) :
+    renderText m [⟨c, .none⟩, ⟨d, .lf⟩] = c ++ renderNewline m .lf ++ d ++ renderNewline m .lf := by
+  simp [renderText, terminate, renderLine, renderNewline]
+
+/-- in all modes the file written ends without a newline exactly when its last item has none -/
+theorem output_final_newline (m : NewlineOutput) (os : List Out) (last : Out) (h : os.getLast? = some last) :
+    (last.line.newline ≠ .none → (render m os).getLast? = some NL) ∧
+    (last.line.newline = .none → last.line.content ≠ [] → last.line.content.getLast? ≠ some NL →
+      (render m os).getLast? ≠ some NL) := by
+  unfold render
+  refine final_newline m _ last.line ?_
+  rw [List.getLast?_map, terminateInner_getLast?, h]; rfl
+
+theorem text_final_newline (m : NewlineOutput) (ls : List Line) (last : Line) (h : ls.getLast? = some last) :
+    (last.newline ≠ .none → (renderText m ls).getLast? = some NL) ∧
+    (last.newline = .none → last.content ≠ [] → last.content.getLast? ≠ some NL →
+      (renderText m ls).getLast? ≠ some NL) := by
+  rw [renderText_eq]
+  exact final_newline m _ last (by rw [terminate'_getLast?, h])
+
+/-- in what is written (with or without `-D`), a line without newline that is not the last is followed by a bare terminator -/
+theorem output_inner_terminated (os pre : List Out) (o o2 : Out) (rest : List Out)
+    (h : terminateInner os = pre ++ o :: o2 :: rest) (hn : o.line.newline = .none) : o2.isBare = true :=
+  terminateInner_inner os pre o o2 rest h hn
+
+/-- and that is all the rule does: without `-D` the items written are the intended ones plus bare LF lines -/
+theorem output_items (os : List Out) (h : NoBare os) : (terminateInner os).filter (fun o => !o.isBare) = os :=
+  terminateInner_filter os h
+
 end PatchModel.C14
